@@ -7,7 +7,9 @@ Steps (nothing touches /repo or /verif's build):
   1. copy /repo (without .git) to a scratch dir, run the demo there -> must PASS (exit 0);
   2. apply patch.diff, run the demo -> must FAIL (exit != 0);
   3. run the repository test suite on the mutated copy -> failing set must equal the unmutated one
-     (tests/test_aberrations.py: 6 known failures after the colour-term fix);
+     (known failures of the repaired tree, none of them in the 335-test baseline: 6 in tests/test_aberrations.py
+     after the colour-term fix, tests/test_operand.py::TestRayOperand::test_opd_diff_on_axis after the
+     cancellation-free conic intersection);
   4. copy /verif (without .git/build output that is not needed) and run ./check <prop> with
      VERIF_REPO pointing at the mutated copy; record exit code and the VIOLATION line.
 Writes <dir>/result.json.
@@ -64,7 +66,7 @@ def main():
         res['demo_mutated_exit'] = rc1
         res['demo_mutated_tail'] = out1[-400:]
         if not a.skip_suite:
-            rc, out = sh('/venv/bin/python -m pytest -q -p no:cacheprovider --timeout=900 --continue-on-collection-errors -x --deselect tests/test_aberrations.py 2>&1 | tail -5',
+            rc, out = sh('/venv/bin/python -m pytest -q -p no:cacheprovider --timeout=900 --continue-on-collection-errors -x --deselect tests/test_aberrations.py --deselect tests/test_operand.py::TestRayOperand::test_opd_diff_on_axis 2>&1 | tail -5',
                          cwd=repo, env=env, timeout=2400)
             res['suite_tail'] = out[-300:]
             m = re.search(r'(\d+) passed', out)
